@@ -220,6 +220,26 @@ class AddMonitor(Monitor):
                 after=[spec.rec_dict(r) for r in after_recs], **w,
             )
         if fn != "add_record":
+            # add_prefix: the strings as the caller gave them must now resolve, all to one record
+            a = list(args[1:])
+            kw = dict(kwargs)
+            prefix = a.pop(0) if a else kw.get("prefix")
+            uri_prefix = a.pop(0) if a else kw.get("uri_prefix")
+            psyn = a.pop(0) if a else kw.get("prefix_synonyms")
+            usyn = a.pop(0) if a else kw.get("uri_prefix_synonyms")
+            if isinstance(prefix, str) and isinstance(uri_prefix, str):
+                asp = spec.SpecConverter(after_recs, conv.delimiter)
+                owners = set()
+                missing = []
+                for p_ in [prefix, *(psyn or [])]:
+                    o = asp.prefix_owner(p_) if isinstance(p_, str) else None
+                    (owners.add(o.uri_prefix) if o else missing.append(p_))
+                for u_ in [uri_prefix, *(usyn or [])]:
+                    o = next((r for r in after_recs if isinstance(u_, str) and u_ in spec.all_u(r)), None)
+                    (owners.add(o.uri_prefix) if o else missing.append(u_))
+                if missing or len(owners) != 1:
+                    violation(["C05"], mon, "added-strings-do-not-resolve-to-one-record", not_registered=missing,
+                              owners=sorted(owners), after=[spec.rec_dict(r) for r in after_recs], **w)
             return
         new, cs, merge = ctx["new"], ctx["cs"], ctx["merge"]
         m = model_matches(before_recs, new, cs)
